@@ -1,6 +1,6 @@
 (* C19 property theorems. Nothing but statements closed by `exact lemma` and Print Assumptions. *)
 From Coq Require Import String List Bool NArith.
-From OG Require Import C19.Model C19.Gen_Routes C19.Proofs.
+From OG Require Import C19.Model C19.Gen_Routes C19.Privileges C19.Gen_Privileges C19.Proofs.
 Import ListNotations.
 Open Scope string_scope.
 Open Scope N_scope.
@@ -124,6 +124,31 @@ Print Assumptions revoke_effect.
 Theorem grant_revoke_keep_admin : forall us n d p,
   admin_exists (grant us n d p) = admin_exists us /\ admin_exists (revoke us n d p) = admin_exists us.
 Proof. intros; split; apply set_privilege_admin_exists. Qed.
+
+(* (T) the RequiredPrivileges methods of the source (every statement type: Admin flag, database expression, privilege,
+   conditions, delegations) are exactly the table the model and the statement matrix use *)
+Theorem required_privileges_match : list_eqb stmt_priv_eqb gen_privs model_privs = true.
+Proof. exact required_privileges_match_check. Qed.
+Print Assumptions required_privileges_match.
+
+Theorem admin_only_statement_types :
+  forallb admin_only_type ["CreateDatabaseStatement"; "DropDatabaseStatement"; "CreateUserStatement"; "DropUserStatement";
+    "GrantStatement"; "GrantAdminStatement"; "RevokeStatement"; "RevokeAdminStatement"; "SetPasswordUserStatement";
+    "ShowUsersStatement"; "ShowGrantsForUserStatement"; "CreateRetentionPolicyStatement"; "AlterRetentionPolicyStatement";
+    "DropMeasurementStatement"; "DropShardStatement"; "KillQueryStatement"; "ShowShardsStatement"; "ShowStatsStatement";
+    "ShowDiagnosticsStatement"; "CreateMeasurementStatement"; "SetConfigStatement"; "ShowConfigsStatement"] = true.
+Proof. exact admin_only_types_check. Qed.
+
+Theorem admin_requirement_refuses_non_admin : forall u dflt s,
+  In RAdmin s -> u_admin u = false -> authorize_query u dflt [s] = false.
+Proof. exact admin_requirement_refuses. Qed.
+Print Assumptions admin_requirement_refuses_non_admin.
+
+Theorem every_required_privilege_must_hold : forall u dflt s d p,
+  In (RDb d p) s -> u_admin u = false -> authorize_database u p (target_db d dflt) = false ->
+  authorize_query u dflt [s] = false.
+Proof. exact every_requirement_must_hold. Qed.
+Print Assumptions every_required_privilege_must_hold.
 
 (* non-vacuity: hypotheses are satisfiable and the interesting outcomes all occur *)
 Definition ex_users : list user :=
